@@ -1,5 +1,5 @@
 """C10 - UCI move text round-trips and is accepted exactly when such a move exists."""
-from . import ucirules, apirules, genrules, attackrules
+from . import ucirules, apirules, genrules, attackrules, textrules
 
 
 def run(ctx):
@@ -29,5 +29,11 @@ def run(ctx):
         "move - the moved man on its destination (also when it captures there), the captured man and the en-passant victim removed - and the "
         "pin shortcut is never taken by an en passant capture (= C01/N2, N4 re-run)",
     ]
+    ctx.decided += [
+        "X8 the text level: the model of Display for uci::Move, evaluated for every value (quick: every source x 10 destinations x 5 promotion "
+        "values; thorough: all 20,481), writes exactly the coordinate notation, and the model of FromStr reads it back as the same value; "
+        "26 near-miss texts (wrong length, bad file/rank/promotion letter, upper case, blanks, non-ASCII inside) are refused without a panic",
+    ]
+    textrules.uci_text_rule(ctx, facts, "X8", thorough)
     attackrules.prechecker_rule(ctx, facts, "X7p")
     attackrules.checker_rule(ctx, facts, "X7")
